@@ -1756,3 +1756,10 @@ LEGS = [
 # program gets from iterating a set / dict of names differs between runs
 _byn = dict((lg.name, lg) for lg in LEGS)
 LEGS += [twin_env(_byn['machine'], "hash77", {"PYTHONHASHSEED": "77"})]
+
+# the same searches with every nfc logger enabled down to the lowest level
+# (code that only runs, or only evaluates its arguments, when logging is on)
+_byl = dict((lg.name, lg) for lg in LEGS)
+LEGS += [twin_env(_byl[n], "log", {"VERIF_LOG": "debug"}, quick=q, thorough=t,
+                  shards_quick=2)
+         for n, q, t in [('machine', 150, 1500)] if n in _byl]
